@@ -430,8 +430,24 @@ def main():
         "correspondence is sampled: agreement is established on the histories run",
     ]
     run.cov["trusted_base"] += ["harness/c04.py, harness/fitlib.py (histories, adapter, canonicalisation of exception classes)",
-                                "Model/Gate.v re-specifies the guard order of fit/predict per family; validated by the correspondence"]
-    run.check_proofs("Properties/C04.v", ["Proofs/GateProofs.v"])
+                                "Model/Gate.v re-specifies the guard order of fit/predict per family; tied to the source by "
+                                "harness/translate_gate.py (ast, fail-closed: guard prefix of fit/predict of the three model classes, "
+                                "in source order, with the classes the type guards accept) + theorems C04_predict_is_the_source_guard_sequence "
+                                "/ C04_fit_is_the_source_guard_sequence, and validated by the correspondence"]
+    # step 0: translator (guard prefixes of fit / predict, regenerated from /repo's source on every run)
+    import translate_gate
+    gen_ok = True
+    try:
+        ex = translate_gate.extract()
+        run.write_generated(translate_gate.OUT, translate_gate.render(ex))
+        run.cov["source_guard_sequences"] = ex
+    except translate_gate.TranslatorError as e:
+        gen_ok = False
+        run.proof_ok = False
+        run.proof_log += "translator failed (fail-closed): %s" % e
+        run.log("TRANSLATOR FAILED: %s" % e)
+    if gen_ok:
+        run.check_proofs("Properties/C04.v", ["Proofs/GateProofs.v", "Proofs/GateGenProofs.v"], generated=["Generated/GateGen.v"])
     run.ensure_models(["Model/GateRun.v", "Model/CasesLib.v"])
     t0 = time.time()
     build_data(run.seed)
